@@ -160,6 +160,33 @@ fn steer_mode<C: RangeCombo>(rng: &mut Rng, e: &Enc<C>, w: u32, s: u32, p: u32, 
             };
             cdf_around(p, a, a + pr)
         }
+        6 => {
+            // D3 hunt, second step: smallest p that avoids renormalisation, lower moved to
+            // just above a top-word boundary
+            let pr = (thr + scale - 1) / scale;
+            let d = (thr - (lower % thr)) % thr;
+            let a = (d + scale - 1) / scale;
+            if pr == 0 || pr >= total || a + pr > total {
+                return random(rng);
+            }
+            cdf_around(p, a, a + pr)
+        }
+        7 => {
+            // D3 hunt, first step: new range just above the threshold, new lower just below a
+            // top-word boundary
+            let c = (thr + scale - 1) / scale;
+            let pr = (c + rng.below(2)).clamp(1, total - 1);
+            let maxa = total - pr;
+            let d0 = thr - (lower % thr);
+            let mut cands = Vec::new();
+            let mut d = d0;
+            while (d - 1) / scale <= maxa && cands.len() < 300 {
+                cands.push((d - 1) / scale);
+                d += thr;
+            }
+            let a = if cands.is_empty() { rng.below(maxa + 1) } else { *rng.pick(&cands) };
+            cdf_around(p, a, a + pr)
+        }
         5 => {
             // extreme probabilities
             let pr = if rng.chance(1, 2) { 1 } else { total - 1 };
